@@ -102,7 +102,23 @@ def run(ctx, scn):
             else:
                 rule.exclude.append(VARS["Q"])
         elif cmd == "launch":
-            if k and v == UNSET:
+            from xonsh.procs.specs import SubprocSpec
+
+            # (1) the mapping SubprocSpec hands to Popen for a command started now
+            overlay = None
+            if k:
+                overlay = {VARS[k]: DELETE_VAR if v == UNSET else _value(k, v)}
+            spec = SubprocSpec(cmd=["true"], env=overlay)
+            kw = {}
+            spec.prep_env_subproc(kw)
+            obs["map"] = {kk: _decode(kk, kw["env"].get(name)) for kk, name in VARS.items()}
+            # (2) a real child through the whole command path (not at every launch: running a
+            # whole command reads mutable values and thereby drops the cached mapping)
+            real = bool(st.get("real", True))
+            obs["real"] = real
+            if not real:
+                child = {name: kw["env"].get(name) for name in list(VARS.values()) + [MIRROR] if name in kw["env"]}
+            elif k and v == UNSET:
                 with env.swap({VARS[k]: DELETE_VAR}):
                     child = _launch(XSH)
             elif k:
@@ -117,7 +133,8 @@ def run(ctx, scn):
             back = True
             for kk, name in VARS.items():
                 if name in child:
-                    expect = _value(kk, v) if (kk == k and v != UNSET) else env[name]
+                    # (read the raw store: reading a mutable value through the env would drop the cache)
+                    expect = _value(kk, v) if (kk == k and v != UNSET) else env._d[name]
                     got = nested[name]
                     if kk in ("P",) or hasattr(got, "paths") or hasattr(expect, "paths"):
                         got, expect = list(got), list(expect)
